@@ -45,6 +45,7 @@ type G struct {
 	funcs       []fnInfo
 	objs        []objInfo
 	intVars     []string
+	shows       []string // top-level objects with their own S method
 	topInts     []string // top-level int variables (targets of compound assignment)
 	curKw       []string // keyword parameters of the function literal being generated
 	selfMethods []fnInfo // inside a method body: int-returning methods of the same object defined before it
@@ -78,11 +79,23 @@ func (g *G) slot(ret, role string) *N {
 }
 
 func (g *G) topStmt() *N {
-	w := []int{4, 3, 2, 2, 0}
+	w := []int{4, 3, 2, 2, 0, 0}
 	if g.p.TopDefer {
 		w[4] = 1
 	}
+	if g.p.LitW > 0 && len(g.shows) < 2 {
+		w[5] = 1
+	}
 	switch g.t.Pick(w...) {
+	case 5:
+		// an object with its own `S`: interpolating it into a string calls the method
+		name := g.name("s")
+		body := &N{K: KFunc, Method: true, L: []*N{
+			{K: KExprS, A: g.slot("id", "stmt/expr")},
+			{K: KExprS, A: &N{K: KStr, Str: "<" + name + ">"}},
+		}}
+		g.shows = append(g.shows, name)
+		return &N{K: KAssign, Str: name, A: &N{K: KObj, L: []*N{body}, Names: []string{"S"}, Star: []int{0}}}
 	case 0: // expression statement
 		if (len(g.funcs) > 0 || len(g.objs) > 0) && g.t.Chance(1, 2) {
 			if c := g.userCall(g.p.MaxDepth, false); c != nil {
@@ -108,6 +121,9 @@ func (g *G) topStmt() *N {
 			kw = append(kw, "k")
 			if g.p.MultiKw && g.t.Chance(1, 2) {
 				kw = append(kw, "j")
+			}
+			if g.p.MultiKw && g.t.Chance(1, 4) {
+				kw = append(kw, "_p") // a private name is a keyword like any other
 			}
 		}
 		retInt := !g.t.Chance(1, 4)
@@ -532,7 +548,11 @@ func (g *G) anyExpr(depth int, role string) *N {
 		g.noBrace++
 		defer func() { g.noBrace-- }()
 		for i := 0; i < n; i++ {
-			e.L = append(e.L, g.intExpr(depth-1, "emb/part"))
+			if len(g.shows) > 0 && g.t.Chance(1, 3) {
+				e.L = append(e.L, &N{K: KVar, Str: g.shows[g.t.Intn(len(g.shows))]})
+			} else {
+				e.L = append(e.L, g.intExpr(depth-1, "emb/part"))
+			}
 			e.Lits = append(e.Lits, []string{"", "a", "-"}[g.t.Intn(3)])
 		}
 		e.Lits = append(e.Lits, []string{"", "z"}[g.t.Intn(2)])
